@@ -128,6 +128,11 @@ func EncodeWithColor(content string, interleaved bool, color barcode.ColorScheme
 		}
 	}
 
+	if lastRune != nil {
+		// an odd number of runes (multi-byte characters make len(content) even): nothing to pair it with
+		return nil, fmt.Errorf("can not encode \"%s\"", content)
+	}
+
 	resBits.AddBit(mode.end...)
 
 	if interleaved {
